@@ -26,7 +26,10 @@ def headOfJson (j : Json) : Except String HeadInfo := do
   let nrefs ← (← j.getObjVal? "nrefs").getNat?
   let catchLbl ← (← j.getObjVal? "catch").getBool?
   let isStart ← (← j.getObjVal? "start").getBool?
-  pure { uid, flow, loop, scores, ev, act, nrefs, isStart, catchLbl }
+  let owns := match j.getObjVal? "owns" with
+    | .ok (.bool b) => b
+    | _ => true
+  pure { uid, flow, loop, scores, ev, act, nrefs, isStart, catchLbl, owns }
 
 def mscoreOfJson (j : Json) : Except String MScore := do
   let k ← (← j.getObjVal? "k").getNat?
